@@ -132,6 +132,21 @@ Theorem C07_bad_param_is_error : forall q kids data v,
 Proof. exact bad_param_is_error. Qed.
 Print Assumptions C07_bad_param_is_error.
 
+(** ... and so is a path expression with unbalanced parentheses, in fields, fc.xfields or as the
+    selector of fc.range; the parser accepts exactly the balanced expressions *)
+Theorem C07_bad_path_expr_is_error : forall q kids data v,
+  (lookup (B "fields") q = Some v /\ balanced v 0 = false) \/
+  (lookup (B "fc.xfields") q = Some v /\ balanced v 0 = false) \/
+  (lookup (B "fc.range") q = Some v /\
+   exists sel rows, cut_at x21 v [] = Some (sel, rows) /\ balanced sel 0 = false) ->
+  is_err (read_query kids data q).
+Proof. exact bad_path_expr_is_error. Qed.
+Print Assumptions C07_bad_path_expr_is_error.
+
+Theorem C07_parse_ok_iff_balanced : forall s, (exists ps, parse_path_expr s = POk ps) <-> balanced s 0 = true.
+Proof. exact parse_ok_iff_balanced. Qed.
+Print Assumptions C07_parse_ok_iff_balanced.
+
 (** the field-path match (repaired) never panics and decides the prefix order; the three
     predicates built on it are the declarative ones the views use *)
 Theorem C07_match_never_panics : forall segs rp, segs <> [] -> match_seg segs rp <> None.
